@@ -3,7 +3,7 @@
    type, ConfigSchema/MapConfigSchema.serialize, config._format). *)
 From Coq Require Import ZArith List Bool.
 From Common Require Import Res Str.
-From Config Require Import Escape Proofs_Escape Types Schema Spec_C12 Serialize Proofs_Serialize.
+From Config Require Import Escape Proofs_Escape Types Schema Spec_C12 Serialize Proofs_Serialize Proofs_List.
 Import ListNotations.
 Open Scope Z_scope.
 
@@ -30,8 +30,8 @@ Print Assumptions C13_strip_idempotent.
    to the same value -- for all raw texts, all oracle behaviours satisfying
    [str_oracles_ok] (int(str(z)) = z, float(repr(f)) = f, no backslash in either).
    Strings may contain backslashes, tabs and newlines.  Excluded: Boolean None (known
-   finding, refuted below).  Hostname, Pair and List are covered by correspondence and
-   the type_roundtrip monitor only: hence _partial. *)
+   finding, refuted below).  Lists of scalars: next theorem.  Hostname and Pair are covered
+   by correspondence and the type_roundtrip monitor only: hence _partial. *)
 Theorem C13_type_roundtrip_partial :
   forall so o, str_oracles_ok so o ->
   forall t raw v,
@@ -41,6 +41,27 @@ Theorem C13_type_roundtrip_partial :
     exists s, serialize so o false t v = SStr s /\ deserialize o t s = Ok v.
 Proof. exact scalar_roundtrip_lemma. Qed.
 Print Assumptions C13_type_roundtrip_partial.
+
+(* T2 for List(subtype = scalar), tuple or frozenset (unique=True), optional or not: a list in
+   the range of deserialize whose items are not None and serialize to single-line,
+   backslash-free, non-empty texts (the carve-out the property makes for the list syntax)
+   serializes to a text that deserializes to the same list.  Uses: the newline list syntax
+   splits back into the items, frozenset de-duplication is idempotent. *)
+Theorem C13_list_roundtrip_partial :
+  forall so o, str_oracles_ok so o ->
+  forall opt uq sub raw v,
+    scalar sub = true ->
+    deserialize o (TList opt uq sub) raw = Ok v ->
+    (forall vs, v = VTuple vs \/ v = VSet vs -> items_plain so o sub vs) ->
+    exists s, serialize so o false (TList opt uq sub) v = SStr s
+              /\ deserialize o (TList opt uq sub) s = Ok v.
+Proof. exact list_roundtrip_lemma. Qed.
+Print Assumptions C13_list_roundtrip_partial.
+
+Example C13_list_hypothesis_satisfiable :
+  items_plain law_so law_o (TString false None None) [VStr [97; 98]; VStr [99; 32; 100]].
+Proof. exact ex_items_plain. Qed.
+Print Assumptions C13_list_hypothesis_satisfiable.
 
 Theorem C13_boolean_none_roundtrip_refuted :
   exists so o raw s, deserialize o (TBoolean true) raw = Ok VNone
